@@ -101,7 +101,8 @@ def classify(chk, res, behs):
             else:
                 chal = {"cA": "s256", "cBp": "s256", "cBx": "plain"}.get(tgt, "?")
                 ver = next((s["call"]["verifier"] for s in beh["steps"] if s["call"]["r"] == m["call"]["r"]), "?")
-                key = "pkce/%s/verifier-%s" % (chal, ver)
+                owner = {"cA": "public-client", "cBp": "confidential-client", "cBx": "confidential-client"}.get(tgt, "?")
+                key = "pkce/%s/%s/verifier-%s" % (chal, owner, ver)
                 what = ("code %s (challenge %s) yielded tokens to a request whose verifier is of class '%s', not the matching one; "
                         "schedule: %s" % (tgt, chal, ver, " ; ".join(calls_of(beh)[:m["step"] + 1])))
             chk.violation(key, what, {"behaviour": {"grants": beh["grants"], "steps": beh["steps"]}, "mismatch": m})
